@@ -329,3 +329,58 @@ class LimitBlock:
         # the row site that belongs to the limit block is the in-loop one that is not fed by should_record
         a = F.row_args(call)
         return all(isinstance(a.get(k), ast.Name) for k in ('time', 'range_vector', 'velocity_vector')) and F._inside(call, F.loop)
+
+
+def eval_limit_block(prog: Program, F: 'IntegrateFacts', LB: 'LimitBlock'):
+    """Engine D reading of the limit block on a symbolic state (position x, y, z; speed `speed`; station altitude alt0;
+    settings cfg.<field>): -> (outcome tree, evaluator, state).  Settings reach the block through `self._config.<f>`,
+    through locals assigned from it, or through an alias of the whole tuple."""
+    from ..abseval import Evaluator, State, S, SymObj, Undecided, Ctx
+    from .c18 import _locals_from_config, config_aliases
+    tc = F.mod
+    ev = Evaluator(prog, opaque={'create_trajectory_row', 'spin_drift'})
+    st = State()
+    tcc = prog.cls(C.M_TC, 'TrajectoryCalc')
+    cfgc = prog.cls(C.M_TC, 'Config')
+    cfg_inst = ev.new_inst(st, cfgc, {f: S(f'cfg.{f}') for f in prog.namedtuple_fields(cfgc)})
+    selfv = ev.new_inst(st, tcc, {'alt0': S('alt0'), 'look_angle': S('L'), 'weight': S('w'), '_config': cfg_inst})
+    lm = _locals_from_config(F.func)
+    env = {'self': selfv, F.P: C.mk_vec(ev, st, prog, 'x', 'y', 'z'), F.V: C.mk_vec(ev, st, prog, 'vx', 'vy', 'vz'),
+           F.t: S('t'), F.a: S('a'), F.rho: S('rho'), 'drag': S('drag'), 'data_filter': SymObj('data_filter')}
+    names = {n.id for st_ in LB.stmts for n in ast.walk(st_) if isinstance(n, ast.Name)}
+    assigned = {n.id for st_ in LB.stmts for n in ast.walk(st_) if isinstance(n, ast.Name) and isinstance(n.ctx, ast.Store)}
+    aliases = config_aliases(F.func)
+    for n in names:
+        if n in lm:
+            env[n] = S(f'cfg.{lm[n]}')
+        elif n in aliases:
+            env[n] = cfg_inst
+    if LB.speed_name and LB.speed_name not in env:
+        env[LB.speed_name] = S('speed')
+    for n in names:
+        if n not in env and n not in assigned and n not in ('RangeError', 'create_trajectory_row', 'math', 'abs', 'min', 'max',
+                                                             'len', 'TrajFlag', 'logger'):
+            try:
+                ev.lookup(n, State(), Ctx(tc, F.func, None, 0))
+            except Undecided:
+                env[n] = SymObj(n)
+    st.env.update(env)
+    # locals set once before the loop from the calculator's own state (a limits object built from self._config, say)
+    for n in sorted(names):
+        if n in lm or n in assigned or n in F.func.params or n in (F.P, F.V, F.t, F.a, F.rho, 'drag', 'self') or n in aliases:
+            continue
+        try:
+            all_defs = F.defs_reaching(LB.stmts[0], n)
+        except AnalysisError:
+            continue
+        ds_ = [d for d in all_defs if not F.in_loop(d)]
+        if len(ds_) == 1 and len(all_defs) == 1 and isinstance(ds_[0].ast, (ast.Assign, ast.AnnAssign)) and ds_[0].ast.value is not None:
+            try:
+                st.env[n] = ev.eval(ds_[0].ast.value, st, Ctx(tc, F.func, None, 0))
+            except Undecided:
+                pass
+    try:
+        tree = ev.exec_block(LB.stmts, st, Ctx(tc, F.func, None, 0))
+    except Undecided as exc:
+        raise AnalysisError(f'limit block: {exc}') from exc
+    return tree, ev, st
